@@ -2,14 +2,15 @@
 
 from ..core import PROVED, REFUTED, UNKNOWN, MISSING
 from ..poly import Poly, prove
-from ..rules import check_const_transmute, lifetime_linkage, vstr, fstr
+from ..rules import check_const_transmute, lifetime_linkage, vstr, fstr, transfers
 from ..tys import tstr, pointee
 
 EXPLANATION = (
-    "Static extent analysis of the 6 reinterpretation bodies (N, M, NM symbolic; configs F0+F1). Owned forms: the single const_transmute::<A, B> call has "
+    "Static extent analysis of the 6 reinterpretation bodies (N, M, NM symbolic; configs F0+F1). Owned forms: self is moved whole and exactly once into the result "
+    "(const_transmute, a by-value transmute, or a bit copy out of a ManuallyDrop-parked / forgotten self that is never dropped afterwards), no other call runs, and the move has "
     "size_of A == size_of B as a polynomial identity for flatten (M*(N*s) == (N*M)*s) and size_of B <= size_of A for unflatten with equality exactly when N divides NM "
-    "(floor-division axiom; the non-divisible case is stopped by const_transmute's own size guard, rule C01.T, which is checked here too). Reference forms: the body is a "
-    "single Transmute of the reference itself, so the address is unchanged; pointee extents are equal (flatten) / within the source (unflatten), mutability and lifetime "
+    "(floor-division axiom; the non-divisible case is stopped by const_transmute's own size guard, rule C01.T, which is checked here too). Reference forms: the returned "
+    "reference is the receiver's own address at offset 0 (transmute or pointer cast), no call runs; pointee extents are equal (flatten) / within the source (unflatten), mutability and lifetime "
     "are those of the receiver. Row-major order needs no separate rule: both sides are contiguous arrays of T at the same address (C01), so flat element i*N + j is element j of inner array i.")
 
 OWNED = [("<GenericArray<GenericArray<$0,$1>,$2> as Flatten<$0,$1,$2>>::flatten", "eq"),
@@ -30,6 +31,71 @@ def size_rel(a, facts, src, dst, mode):
     return le, "target %r <= source %r bytes for every NM (equal exactly when N divides NM, the documented domain)" % (dst, src)
 
 
+
+PLUMBING = ("core::mem::ManuallyDrop::<T>::new", "core::ops::Deref::deref", "core::ops::DerefMut::deref_mut", "core::mem::size_of", "core::mem::align_of",
+            "core::mem::forget", "core::ptr::const_ptr::<impl *const T>::cast", "core::ptr::mut_ptr::<impl *mut T>::cast", "core::ptr::from_ref", "core::ptr::from_mut",
+            "core::ptr::addr_of", "core::mem::MaybeUninit::<T>::assume_init")
+ARG1 = ("V", "arg", 1)
+
+
+def owned_form(a, mode):
+    """The owned array is moved, whole and exactly once, into the result: either through const_transmute (whose size guard is C01.T), a by-value
+    transmute, or a bit copy (ptr::read / transmute_copy at offset 0) out of a source that is never dropped afterwards (ManuallyDrop / forget)."""
+    tr = transfers(a)
+    other = [c.fn for c in a.calls if not c.fn.startswith("core::panicking::") and c.fn not in PLUMBING and not c.key == "const_transmute"
+             and c.fn not in ("core::ptr::read", "core::mem::transmute_copy")]
+    if other:
+        return REFUTED, "calls other than a whole-object move in a pure regrouping: %s" % sorted(set(other))
+    cs = a.calls_to("const_transmute")
+    tms = [c for c in a.casts if c["ck"] == "Transmute" and c["val"] == ARG1]
+    movers = []
+    for c in cs:
+        movers.append(("const_transmute", c.args[0] == ARG1, c.facts, a.tenv.size(c.targs[0]), a.tenv.size(c.targs[1]), c.ret, True, c.bb))
+    for c in tms:
+        movers.append(("transmute", True, c["facts"], a.tenv.size(c["from"]), a.tenv.size(c["to"]), c["val"], True, c["site"][0]))
+    for r in tr["read"] + tr["tcopy"]:
+        # the source must be self parked in a ManuallyDrop local, or self itself if it is forgotten on every path afterwards
+        base = r["base"]
+        src_ok = False
+        if base[0] == "local":
+            lt = tstr(a.local_ty(base[1]))
+            md = [c for c in a.calls_to("core::mem::ManuallyDrop::<T>::new") if c.args[0] == ARG1]
+            parked = lt.startswith("core::mem::ManuallyDrop<") and len(md) == 1
+            src_ok = parked
+        elif base == ("arg", 1) or base == ("local", 1):
+            fg = [c for c in a.calls_to("core::mem::forget") if c.args[0] == ARG1]
+            src_ok = bool(fg) and all(any(a.dominates(f.bb, x["bb"]) for f in fg) for x in a.returns)
+        nodrop = not any(d["place"]["l"] == 1 and not d["cleanup"] for d in a.drops)
+        whole = not r["off"].t
+        movers.append((r["c"].fn.split("::")[-1], src_ok and nodrop and whole, r["c"].facts, a.base_extent(base) if base[0] == "local" else a.tenv.size(a.local_ty(1)), r["size"], r["val"], src_ok and nodrop, r["bb"]))
+    if len(movers) != 1:
+        return (REFUTED if movers or a.calls else UNKNOWN), "expected exactly one whole-object move of self into the result; found %d (%s)" % (len(movers), [m[0] for m in movers])
+    how, src_ok, facts, ssz, dsz, val, owned_once, bb = movers[0]
+    if ssz is None or dsz is None:
+        return UNKNOWN, "%s: source or target size unknown" % how
+    ok, det = size_rel(a, facts, ssz, dsz, mode)
+    # every drop of `self` on a normal path after the move would drop the elements a second time
+    dropped = [d for d in a.drops if d["place"]["l"] == 1 and not d["place"]["p"] and not d["cleanup"]]
+    okv = src_ok and not dropped and all(r["val"] == val for r in a.returns) and bool(a.returns)
+    return (PROVED if ok and okv else REFUTED), "%s of self: %s; source is the whole of self, moved out exactly once (never dropped afterwards): %s; result returned: %s" % (
+        how, det, src_ok and not dropped, all(r["val"] == val for r in a.returns))
+
+
+def ref_form(a, b, mode):
+    """The returned reference is the receiver's address reinterpreted: same base, offset 0, same mutability, pointee within the source's extent."""
+    calls = [c.fn for c in a.calls if c.fn not in PLUMBING and not c.fn.startswith("core::panicking::")]
+    if calls:
+        return REFUTED, "calls in a pure reference reinterpretation: %s" % sorted(set(calls))
+    tin, tout = a.local_ty(1), a.local_ty(0)
+    if tin.get("k") != "ref" or tout.get("k") != "ref":
+        return UNKNOWN, "receiver or result is not a reference"
+    ok, det = size_rel(a, frozenset(), a.tenv.size(pointee(tin)), a.tenv.size(pointee(tout)), mode)
+    vals = [r["val"] for r in a.returns]
+    same = bool(vals) and all(v[0] == "P" and v[1] == ("arg", 1) and not v[2].t for v in vals)
+    mut = tin["mut"] == tout["mut"]
+    return (PROVED if ok and same and mut else REFUTED), "%s -> %s: %s; result is the receiver's address at offset 0: %s; same mutability: %s" % (tstr(tin), tstr(tout), det, same, mut)
+
+
 def check(ctx):
     ctx.explanation = EXPLANATION
     ctx.trusted = ["rustc MIR construction; typenum Prod/Quot semantics (Prod<N,M>::USIZE = N*M, Quot<NM,N>::USIZE = floor(NM/N))",
@@ -45,14 +111,8 @@ def check(ctx):
             if b is None:
                 continue
             a = ctx.analysis(cfg, key)
-            cs = a.calls_to("const_transmute")
-            if len(cs) != 1 or len(a.calls) != 1:
-                ctx.ob("C11.E", key, REFUTED if a.calls else UNKNOWN, "expected the body to be exactly one const_transmute call; calls: %s" % [c.fn for c in a.calls], at=b["at"], cfg=cfg)
-                continue
-            c = cs[0]
-            ok, det = size_rel(a, c.facts, a.tenv.size(c.targs[0]), a.tenv.size(c.targs[1]), mode)
-            okv = c.args[0] == ("V", "arg", 1) and all(r["val"] == c.ret for r in a.returns)
-            ctx.ob("C11.E", key, ok and okv, "const_transmute::<%s, %s>: %s; self in, result out: %s" % (tstr(c.targs[0]), tstr(c.targs[1]), det, okv), at=b["at"], cfg=cfg)
+            st, det = owned_form(a, mode)
+            ctx.ob("C11.E", key, st, det, at=b["at"], cfg=cfg)
             ctx.sample({"rule": "C11.E", "fn": key, "cfg": cfg, "detail": det})
             n += 1
         for key, mode in REFS:
@@ -60,16 +120,8 @@ def check(ctx):
             if b is None:
                 continue
             a = ctx.analysis(cfg, key)
-            tr = [c for c in a.casts if c["ck"] == "Transmute"]
-            if len(tr) != 1 or a.calls:
-                ctx.ob("C11.E", key, REFUTED if (tr or a.calls) else UNKNOWN, "expected the body to be exactly one transmute of the reference; transmutes=%d calls=%s" % (len(tr), [c.fn for c in a.calls]), at=b["at"], cfg=cfg)
-                continue
-            c = tr[0]
-            pf, pt = pointee(c["from"]), pointee(c["to"])
-            ok, det = size_rel(a, c["facts"], a.tenv.size(pf), a.tenv.size(pt), mode)
-            v = c["val"]
-            okv = v[0] == "P" and v[1] == ("arg", 1) and not v[2].t and c["from"]["mut"] == c["to"]["mut"] and all(r["val"] == v for r in a.returns)
-            ctx.ob("C11.E", key, ok and okv, "transmute %s -> %s: %s; same address, same mutability, returned: %s" % (tstr(c["from"]), tstr(c["to"]), det, okv), at=b["at"], cfg=cfg)
+            st, det = ref_form(a, b, mode)
+            ctx.ob("C11.E", key, st, det, at=b["at"], cfg=cfg)
             st, ldet = lifetime_linkage(ctx.db(cfg), b)
             ctx.ob("C11.L", key, st if st is not None else UNKNOWN, ldet, at=b["at"], cfg=cfg)
             n += 1
